@@ -483,7 +483,12 @@ func init() {
 		c.Group("C13/index-identity", "the sweep building the key-range index drops a rule from the active set by its full (group id, id) key", func() { ruleSortedRulesIdentity(c); ruleRangeRulesOwnSlice(c) })
 		c.Group("C13/key-format", "(shared with C17) rules and rule groups are saved, loaded and deleted under one path prefix each", func() { ruleKeyFamilies(c) })
 		c.Group("C13/borrowed-immutable", "rules handed out by the manager are never edited in place", func() { ruleBorrowedImmutable(c) })
-		c.Group("C13/load-and-save-keys", "rules are saved under their canonical key, mis-keyed entries are repaired at load, write errors abort", func() { ruleLoadRepair(c); ruleInitializeOrder(c); ruleFreshManagerPerTerm(c); ruleLoadedRecordsAreDistinct(c) })
+		c.Group("C13/load-and-save-keys", "rules are saved under their canonical key, mis-keyed entries are repaired at load, write errors abort", func() {
+			ruleLoadRepair(c)
+			ruleInitializeOrder(c)
+			ruleFreshManagerPerTerm(c)
+			ruleLoadedRecordsAreDistinct(c)
+		})
 	})
 }
 
@@ -526,14 +531,24 @@ func ruleLoadedRecordsAreDistinct(c *Ctx) {
 					}
 					k++
 					n++
-					own := false
-					switch a := strip(kept).(type) {
-					case *ssa.Alloc:
-						own = a.Parent() == cb
-					case *ssa.Call:
-						own = true // a constructor's result
+					own := true
+					for _, alt := range valueAlternatives(kept, 3) {
+						switch a := strip(alt).(type) {
+						case *ssa.Alloc:
+							own = own && a.Parent() == cb
+						case *ssa.Call:
+							// a constructor's result
+						case *ssa.Const:
+							// nil (an entry that is refused is not kept)
+						case *ssa.Extract:
+							// one result of a decoding helper: fresh if the helper returns its own allocations there
+							cl, ok := a.Tuple.(*ssa.Call)
+							own = own && ok && returnsFresh(cl.Call.StaticCallee(), a.Index)
+						default:
+							own = false
+						}
 					}
-					c.Check(own, rule, fmt.Sprintf("record kept #%d by the callback of %s", k, fnName(fn)), "the object a load callback keeps was created in that call of the callback: one object per stored record", P.instrPos(ins), "the kept pointer refers to an object that outlives the callback (shared by every record)")
+					c.Check(own, rule, fmt.Sprintf("record kept #%d by the callback of %s", k, fnName(fn)), "the object a load callback keeps was created in that call of the callback: one object per stored record", P.instrPos(ins), fmt.Sprintf("the kept pointer (%T %s) refers to an object that outlives the callback (shared by every record)", strip(kept), strip(kept).String()))
 				}
 			}
 		}
@@ -541,4 +556,35 @@ func ruleLoadedRecordsAreDistinct(c *Ctx) {
 	if n < 2 {
 		c.Undec(rule, "objects kept by the load callbacks of the rule manager", "at least 2 (rules, groups)", "", fmt.Sprint(n))
 	}
+}
+
+// returnsFresh: every value fn returns at result index idx is an object
+// allocated in fn (or nil, or itself a call's result).
+func returnsFresh(fn *ssa.Function, idx int) bool {
+	if fn == nil || len(fn.Blocks) == 0 {
+		return false
+	}
+	n := 0
+	for _, b := range fn.Blocks {
+		r, ok := b.Instrs[len(b.Instrs)-1].(*ssa.Return)
+		if !ok || idx >= len(r.Results) {
+			continue
+		}
+		for _, v := range valueAlternatives(r.Results[idx], 3) {
+			switch x := strip(v).(type) {
+			case *ssa.Alloc:
+				if x.Parent() != fn {
+					return false
+				}
+				n++
+			case *ssa.Call:
+				n++
+			case *ssa.Const:
+				// nil
+			default:
+				return false
+			}
+		}
+	}
+	return n > 0
 }
